@@ -165,6 +165,10 @@ func bankedOps(r *rng.R, spec string) []apiOp {
 		case 3:
 			la := r.Intn(int(linTotals[spec]))
 			if r.Bool() {
+				// the linear address with the same number as a window address: below 64K the two views differ there
+				la = a
+			}
+			if r.Bool() {
 				ops = append(ops, apiOp{name: "wl", a: la, v: int(r.BByte())})
 			}
 			ops = append(ops, apiOp{name: "rl", a: la}, apiOp{name: "rb", a: a})
